@@ -3,25 +3,40 @@ from __future__ import annotations
 
 import random
 
+# Short statements on purpose: the cost of one symbolic path grows faster than linearly with the length of the text (every
+# character access on a mixed concrete/symbolic string is interpreted), measured 2 s per path at ~25 characters and
+# 20-60 s per path at ~80 characters.
 CORPUS = [
-    ("", "SELECT a, b + 1 AS c FROM t WHERE a > 1 AND b IN (1, 2) ORDER BY c DESC LIMIT 10"),
-    ("", "SELECT x.a, COUNT(*) FROM x JOIN y ON x.b = y.b GROUP BY x.a HAVING COUNT(*) > 1"),
-    ("", "WITH q AS (SELECT a FROM t) SELECT * FROM q UNION ALL SELECT b FROM u"),
-    ("", "SELECT CASE WHEN a = 1 THEN 'x' ELSE 'y' END, CAST(b AS INT) FROM t"),
-    ("", "SELECT a FROM t WHERE b BETWEEN 1 AND 2 OR NOT c IS NULL"),
-    ("", "SELECT SUM(a) OVER (PARTITION BY b ORDER BY c) FROM t"),
-    ("", "INSERT INTO t (a, b) VALUES (1, 'x')"),
-    ("", "UPDATE t SET a = 1 WHERE b = 2"),
-    ("", "CREATE TABLE t (a INT, b TEXT)"),
-    ("", "SELECT a FROM (SELECT b AS a FROM u) AS s WHERE EXISTS (SELECT 1 FROM v)"),
-    ("", "SELECT -a * (b - 1) / 2, a || 'x' FROM t"),
-    ("", "DELETE FROM t WHERE a IN (SELECT b FROM u)"),
-    ("mysql", "SELECT `a`, IF(b > 1, 'x', \"y\") FROM t LIMIT 1, 2"),
-    ("postgres", "SELECT a::INT, b -> 'k' FROM t WHERE c ILIKE 'x%'"),
-    ("bigquery", "SELECT a, STRUCT(b AS x) FROM `p.d.t` WHERE c IN UNNEST([1, 2])"),
-    ("duckdb", "SELECT a, LIST(b) FROM t GROUP BY ALL QUALIFY ROW_NUMBER() OVER () = 1"),
-    ("snowflake", "SELECT a:b::INT, IFF(c, 1, 2) FROM t SAMPLE (10)"),
-    ("tsql", "SELECT TOP 1 [a], ISNULL(b, 0) FROM t WITH (NOLOCK)"),
+    ("", "SELECT a, b FROM t"),
+    ("", "SELECT a + 1 AS c FROM t"),
+    ("", "SELECT a FROM t WHERE b > 1"),
+    ("", "SELECT a FROM t ORDER BY a DESC"),
+    ("", "SELECT a FROM t LIMIT 1"),
+    ("", "SELECT COUNT(*) FROM t"),
+    ("", "SELECT a FROM t JOIN u ON a = b"),
+    ("", "SELECT a FROM t GROUP BY a"),
+    ("", "SELECT a IN (1, 2)"),
+    ("", "SELECT a BETWEEN 1 AND 2"),
+    ("", "SELECT CASE WHEN a THEN 1 END"),
+    ("", "SELECT CAST(a AS INT)"),
+    ("", "SELECT a IS NULL OR NOT b"),
+    ("", "SELECT -a * (b - 1)"),
+    ("", "SELECT a || 'x'"),
+    ("", "SELECT * FROM (SELECT 1) AS s"),
+    ("", "WITH q AS (SELECT 1) SELECT * FROM q"),
+    ("", "SELECT 1 UNION ALL SELECT 2"),
+    ("", "SELECT EXISTS (SELECT 1)"),
+    ("", "SELECT SUM(a) OVER (ORDER BY b)"),
+    ("", "INSERT INTO t VALUES (1)"),
+    ("", "UPDATE t SET a = 1"),
+    ("", "DELETE FROM t WHERE a"),
+    ("", "CREATE TABLE t (a INT)"),
+    ("mysql", "SELECT `a` FROM t LIMIT 1, 2"),
+    ("postgres", "SELECT a::INT"),
+    ("bigquery", "SELECT STRUCT(b AS x)"),
+    ("duckdb", "SELECT a FROM t QUALIFY b"),
+    ("snowflake", "SELECT a:b::INT"),
+    ("tsql", "SELECT TOP 1 [a] FROM t"),
 ]
 
 
